@@ -54,6 +54,7 @@ extern int mpt_stream_flush(MPT_STRUCT(stream) *stream)
 	/* try to save ready data to backing file */
 	else if ((file = _mpt_stream_fwrite(&stream->_info)) >= 0) {
 		struct iovec io[2];
+		ssize_t put;
 		/* get used parts */
 		if (!(io[0].iov_base = mpt_queue_data(&stream->_wd.data, &io[0].iov_len))) {
 			return -2;
@@ -67,15 +68,16 @@ extern int mpt_stream_flush(MPT_STRUCT(stream) *stream)
 			len = 0;
 		}
 		/* write queue buffer data to file */
-		if ((len = writev(file, io, len ? 2 : 1)) <= 0) {
-			if (!len) {
+		if ((put = writev(file, io, len ? 2 : 1)) <= 0) {
+			if (!put) {
 				mpt_stream_seterror(&stream->_info, MPT_ENUM(ErrorFull));
 				return 1;
 			} else {
 				mpt_stream_seterror(&stream->_info, MPT_ENUM(ErrorWrite));
 			}
-			return len;
+			return put;
 		}
+		len = put;
 	}
 	/* remove written data from queue */
 	mpt_queue_crop(&stream->_wd.data, 0, len);
